@@ -200,9 +200,23 @@ def roundtrip(ctx, C, v):
     return b
 
 
+def has_long_oid(data):
+    """An OBJECT IDENTIFIER of more than 32 arcs somewhere in data (strict TLV walk).  Such inputs are examined by the
+    units 'oid33' / 'oid33stack' alone: the defect they expose aborts the process and would take the rest of a unit along."""
+    if len(data) < 34:
+        return False
+    for tag, hl, vo, vl, depth in D.walk(data):
+        if tag == 6 and vl >= 32 and 1 + sum(1 for b in data[vo + 1:vo + vl] if not b & 0x80) > 32:
+            return True
+    return False
+
+
 def canon(ctx, C, data, cls=None, note='', orig=None):
     """Oracle (3) for one offered byte string.  Returns True when the library accepted it.
     orig: the valid encoding a mutant was derived from (accepting exactly that prefix is the from_der convention)."""
+    if has_long_oid(data):
+        ctx.stat('offers_left_to_unit_oid33')
+        return False
     ctx.begin([C.name, 'canon', cls, data.hex()[:300]])
     r, inp, got = C.dec(ctx, data)
     if r != 1:
@@ -992,6 +1006,22 @@ def u_oid33(ctx, u):
         ctx.check(r != 1, 'asn1_object_identifier:%d-arcs-accepted' % cnt, ret=r)
         inp.free()
     ctx.sample({'kind': 'oid33'})
+
+
+def u_oid33stack(ctx, u):
+    """The same 33-arc OBJECT IDENTIFIER reaching a decoder that keeps its arc array on the stack."""
+    lib = ctx.lib
+    der = D.sequence(D.oid([1, 3, 6, 1, 5, 5, 7, 3] + [1] * 25))
+    inp = In(ctx, der)
+    ob = ctx.buf(7 * 4)
+    oc = c_size_t(0)
+    ctx.begin(['oid33stack', der.hex()])
+    r = lib.x509_ext_key_usage_from_der(ob, byref(oc), 7, *inp.a())
+    ctx.check(r != 1, 'x509_ext_key_usage:33-arc-key-purpose-accepted', ret=r)
+    ctx.nontrivial('oid33stack', der)
+    ob.free()
+    inp.free()
+    ctx.sample({'kind': 'oid33stack'})
 
 
 def u_seqofint_over(ctx, u):
@@ -3665,41 +3695,53 @@ def u_exts(ctx, u):
 
 def plan(tier, seed):
     units = []
+    quick = tier != 'thorough'
 
     def add(kind, weight=2, **kw):
         d = {'kind': kind, 'flavour': 'asan', 'weight': weight}
         d.update(kw)
         units.append(d)
-    for k in ('length', 'boolean', 'integer', 'int', 'bits', 'misc', 'oid', 'utf8', 'ascii_strings', 'time', 'seqofint'):
-        add(k, 3)
-    for k in ('sm2sig', 'sm2ct', 'sm2keys', 'sm2consumers'):
-        add(k, 3)
-    for i in range(4):
-        add('b64', 3, lo=i, step=4)
-    for i in range(2):
-        add('pemrw', 3, lo=i, step=2)
+    # every unit draws its values from ctx.rng (seeded from VERIF_SEED and the unit index): shards are independent samples
+    rep = 4 if quick else 12
+    for k in ('integer', 'int', 'bits', 'oid', 'utf8', 'ascii_strings', 'time', 'seqofint', 'sm2sig', 'sm2ct', 'sm2keys', 'sm2consumers',
+              'names', 'exts'):
+        for i in range(rep):
+            add(k, 3, shard=i)
+    for k in ('length', 'boolean', 'misc', 'algid'):
+        for i in range(1 if quick else 3):
+            add(k, 3, shard=i)
+    for g in sorted(EXT_GROUPS):
+        for i in range(rep):
+            add('ext', 2, group=g, shard=i)
+    for w in ('sign_master_key', 'sign_master_public_key', 'sign_key', 'enc_master_key', 'enc_master_public_key', 'enc_key', 'signature',
+              'ciphertext'):
+        for i in range(1 if quick else 3):
+            add('sm9', 3, what=w, shard=i)
+    for w in sorted(SM9_INFO):
+        for i in range(1 if quick else 3):
+            add('sm9enc', 6, what=w, shard=i)
+    for i in range(2 if quick else 8):
+        add('pkcs8enc', 8, shard=i)
+    nb64 = 8 if quick else 16
+    for i in range(nb64):
+        add('b64', 3 if quick else 10, lo=i, step=nb64)
+    npem = 4 if quick else 8
+    for i in range(npem):
+        add('pemrw', 3 if quick else 8, lo=i, step=npem)
     for k in ('b64bad', 'hex', 'pembad'):
-        add(k, 2)
+        for i in range(1 if quick else 3):
+            add(k, 2, shard=i)
     add('hexodd', 1)
     for rd in sorted(PEM_CAP_READERS):
         add('pemcap', 1, reader=rd)
     for rd in sorted(PEM_FIXED_READERS):
         add('pemfixed', 1, reader=rd)
-    add('pkcs8enc', 6)
-    add('algid', 2)
-    add('exts', 3)
-    for g in sorted(EXT_GROUPS):
-        add('ext', 2, group=g)
-    add('names', 3)
-    for w in ('sign_master_key', 'sign_master_public_key', 'sign_key', 'enc_master_key', 'enc_master_public_key', 'enc_key', 'signature',
-              'ciphertext'):
-        add('sm9', 3, what=w)
-    for w in sorted(SM9_INFO):
-        add('sm9enc', 5, what=w)
-    per = (20000 if tier == 'thorough' else 2000) // 8
-    for i in range(8):
-        add('wrongpw', 3, shard=i, trials=per)
+    nshard = 8 if quick else 16
+    per = (2000 if quick else 20000) // nshard
+    for i in range(nshard):
+        add('wrongpw', 3 if quick else 8, shard=i, trials=per)
     add('oid33', 1)
+    add('oid33stack', 1)
     add('seqofint_over', 1)
     only = os.environ.get('C14_ONLY')          # development aid: run a subset of unit kinds
     if only:
